@@ -9,7 +9,7 @@ EXPLANATION = ("Decides, on the MIR of gix-credentials: (1) every write of a key
                "true edge cannot reach the Ok return; (3) the set of keys written is a subset of the keys the decoder "
                "dispatches on, each key is paired with the field of the same name in the writer, and in the decoder every "
                "store into field K is cut off from entry once the true edges of the comparisons with \"K\" are removed. "
-               "It does not run the encoder; round-trip equality over all values is not decided.")
+               "The reader cuts each line at the FIRST `=` (bounded split / split_once / find), never with an unbounded split. It does not run the encoder; round-trip equality over all values is not decided.")
 
 W = r"gix_credentials::protocol::context::serde::write::<impl gix_credentials::protocol::Context>::write_to$"
 KEYS = [b"url", b"path", b"protocol", b"host", b"username", b"password"]
